@@ -247,7 +247,7 @@ def _execute(case: dict[str, Any]) -> tuple[list[_Call], dict[str, Any], S.RunRe
 
     with S.Scheduler(case.get("schedule"), timeout=20, max_steps=20_000, start_clock=0.0, pool=True) as sch:
         sch.install(_replay)  # _replay.threading / _replay.time -> scheduler lock + logical clock
-        sch.trace_code(NonceCache.check_and_add, NonceCache._sweep)
+        sch.trace_code(*S.members(NonceCache, "check_and_add", "_sweep"))
         caches: list[NonceCache] = []
 
         if via == "cache":
